@@ -351,6 +351,7 @@ impl DynJob {
             guarded,                                    // OBL C15 runner_is_guarded
         ensures
             final(self).id == old(self).id,
+            *final(context) == *old(context),           // (a task context is a borrowed waker: polling cannot replace it)
             r is Ready ==> *final(q) == (QCtx { current: None, ran: old(q).ran + 1, ..*old(q) }),
             r is Pending ==> *final(q) == (QCtx { ran: old(q).ran + 1, ..*old(q) }),
     { unimplemented!() }
